@@ -598,6 +598,9 @@ class Exec:
             return s.consts.get(mm.group(1), s.N)
         if c in ('()', 'LengthError'):
             return UNIT
+        mz = re.match(r'ZeroSized: (\{closure@[^}]+\})$', c)
+        if mz:      # a capture-less closure passed by value
+            return {'__closure__': mz.group(1)}
         return Opaque(c)
 
     def operand(s, st, fr, t):
@@ -1199,6 +1202,23 @@ class Exec:
                     s.unwind_edges += 1
                     return [(st, 'ret', s.size_hint(st, r)), (s2, 'unwind', None)]
             return R(s.size_hint(st, r))
+        if re.search(r' as Iterator>::count$', c):
+            ic = st.new_cell(args[0])
+            outs, work = [], [(st, 0)]
+            while work:
+                s0, k = work.pop()
+                for (s1, kk, v) in s.iter_next(s0, ic, (), where):
+                    if kk == 'none':
+                        outs.append((s1, 'ret', bv(k)))
+                    elif kk == 'unwind':
+                        outs.append((s1, 'unwind', None))
+                    else:
+                        if k >= s.loop_cap:
+                            raise Inconclusive('unwinding assertion: more than %d iterations feasible at %s' % (s.loop_cap, where))
+                        if isinstance(v, Elem):
+                            s.ev_drop_elem(s1, v, where)
+                        work.append((s1, k + 1))
+            return outs
         if re.search(r' as Iterator>::for_each::<', c):
             return s.for_each(st, args[0], args[1], where)
         if re.search(r' as Iterator>::fold::<', c):
